@@ -151,6 +151,15 @@ def _fresh_value(expr):
 
 def shared_expr(inv, expr, f, local_alias):
     """If `expr` may denote a shared container or an element of one, return (container name, via)."""
+    if isinstance(expr, ast.IfExp):
+        # either arm may be the shared container
+        return shared_expr(inv, expr.body, f, local_alias) or shared_expr(inv, expr.orelse, f, local_alias)
+    if isinstance(expr, ast.BoolOp):
+        for v in expr.values:
+            r = shared_expr(inv, v, f, local_alias)
+            if r is not None:
+                return r
+        return None
     root, depth = A.strip_elements(expr)
     if depth >= 1:
         base = shared_expr(inv, root, f, local_alias)
